@@ -1004,4 +1004,263 @@ Section User.
     - right; right. rewrite Hp. split; [discriminate|auto].
     - intros _ _. left. left. reflexivity.
   Qed.
+
+  (* ---------------------------------------------------------------- first poll *)
+  Definition with_cid (k : call) (id : N) : call :=
+    {| c_handle := c_handle k; c_phase := c_phase k; c_id := id; c_rel := c_rel k;
+       c_deadline := c_deadline k; c_tc := c_tc k; c_body := c_body k |}.
+
+  Lemma cP_set_nth_dead g l i k k' id :
+    nth_error l i = Some k -> g (c_phase k) = false -> g (c_phase k') = false ->
+    cP g (set_nth i k' l) id = cP g l id.
+  Proof.
+    intros Hk G G'. unfold cP.
+    pose proof (cnt_set_nth (fun k0 => g (c_phase k0) && N.eqb (c_id k0) id) i k k' l Hk) as H.
+    cbn beta in H. rewrite G, G' in H. cbn in H. lia.
+  Qed.
+
+  Lemma Live_prologue s i k :
+    Live s -> nth_error (calls s) i = Some k -> c_phase k = PNew ->
+    (next_id s + 1 < two64)%N ->
+    let id := next_id s in
+    let s1 := set_slot (with_id (upd_misc s (N.modulo (id + 1) 18446744073709551616) (handles s) (now s))
+                                i k id) id slot0 in
+    Live s1 /\ TT s1 id = 0%nat /\ get_slot s1 id = slot0 /\ next_id s1 = (id + 1)%N /\
+    nth_error (calls s1) i = Some (with_cid k id).
+  Proof.
+    intros L Hk Hp Hw id s1.
+    assert (En : next_id s1 = (id + 1)%N).
+    { unfold s1. cbn [next_id set_slot upd_slots with_id upd_calls upd_misc].
+      apply N.mod_small. exact Hw. }
+    assert (Ec : calls s1 = set_nth i (with_cid k id) (calls s)) by reflexivity.
+    assert (EP : forall g id', g PNew = false -> cP g (calls s1) id' = cP g (calls s) id').
+    { intros g id' G. rewrite Ec. apply (cP_set_nth_dead g _ _ k); [exact Hk|rewrite Hp; exact G|].
+      cbn [c_phase with_cid]. rewrite Hp. exact G. }
+    assert (ET : forall id', TT s1 id' = TT s id').
+    { intro id'. unfold TT, CS. rewrite (EP gS id' eq_refl). reflexivity. }
+    assert (Z : TT s id = 0%nat) by (apply L; unfold id; lia).
+    assert (EG : forall id', get_slot s1 id' = if N.eqb id' id then slot0 else get_slot s id').
+    { intro id'. unfold s1. rewrite get_set_slot. reflexivity. }
+    assert (Hi : (i < length (calls s))%nat) by (apply nth_error_Some; congruence).
+    destruct L as [LD LW LU LF LN LC LQ].
+    split; [|split; [rewrite ET; exact Z|split; [rewrite EG, N.eqb_refl; reflexivity|split; [exact En|]]]].
+    - constructor.
+      + exact LD.
+      + destruct LW as [A N]. constructor; [|exact N].
+        intros w Hw'. destruct (A w Hw') as (c & Hc & Hpc). exists c. split; [|exact Hpc].
+        rewrite Ec. rewrite nth_error_set_nth_other; [exact Hc|]. intro; subst w. congruence.
+      + intro id'. rewrite ET. apply LU.
+      + intros id' H. rewrite ET. apply LF. rewrite En in H. unfold id in H. lia.
+      + intros id' H. rewrite ET in H. rewrite EG. destruct (N.eqb id' id) eqn:E; [|apply LN, H].
+        apply N.eqb_eq in E. subst id'. lia.
+      + intros id' H. change (CI s1 id') with (CI s id') in H. change (cancels s1) with (cancels s).
+        unfold CA. rewrite (EP gA id' eq_refl). apply LC, H.
+      + intros id' H. change (CQ s1 id') with (CQ s id') in H. rewrite EG. unfold CW.
+        rewrite (EP gW id' eq_refl). destruct (N.eqb id' id) eqn:E; [|apply LQ, H].
+        apply N.eqb_eq in E. subst id'. unfold TT in Z. lia.
+    - rewrite Ec. apply nth_error_set_nth_same, Hi.
+  Qed.
+
+  Lemma Live_acquire s i k rc :
+    Live s -> nth_error (calls s) i = Some k -> c_phase k = PNew -> TT s (c_id k) = 0%nat ->
+    slot_done (get_slot s (c_id k)) = false -> (c_id k < next_id s)%N ->
+    Live (set_phase (upd_q s O (queue s) (waiters s ++ [i]) rc) i PAcquiring).
+  Proof.
+    intros [LD LW LU LF LN LC LQ] Hk Hp Z Nd Fr. rewrite set_phase_alt.
+    set (s' := upd_calls _ _). set (id0 := c_id k) in *.
+    assert (EP : forall g id, (cP g (calls s') id + b2n (g PNew && N.eqb id0 id)
+                               = cP g (calls s) id + b2n (g PAcquiring && N.eqb id0 id))%nat).
+    { intros g id. unfold s'. cbn [calls upd_calls upd_q]. rewrite <- Hp. apply cP_phase_calls, Hk. }
+    assert (ET : forall id, TT s' id = (TT s id + b2n (N.eqb id0 id))%nat).
+    { intro id. unfold TT. change (CQ s' id) with (CQ s id). change (CI s' id) with (CI s id).
+      pose proof (EP gS id) as H. cbn [gS andb b2n] in H. unfold CS. lia. }
+    constructor.
+    - exact LD.
+    - destruct LW as [A N]. constructor.
+      + cbn [waiters calls s' upd_calls upd_q]. intros w Hw. apply in_app_or in Hw.
+        rewrite nth_error_phase_calls. destruct Hw as [Hw|[<-|[]]].
+        * destruct (A w Hw) as (c & Hc & Hpc). destruct (Nat.eqb i w) eqn:E.
+          { apply Nat.eqb_eq in E. subst w. congruence. }
+          exists c. auto.
+        * rewrite Nat.eqb_refl, Hk. cbn. eexists. split; reflexivity.
+      + cbn [waiters s' upd_calls upd_q]. apply NoDup_app_single; [exact N|].
+        intro Hin. destruct (A i Hin) as (c & Hc & Hpc). congruence.
+    - intro id. rewrite ET. specialize (LU id). destruct (N.eqb id0 id) eqn:E; cbn [b2n]; [|lia].
+      apply N.eqb_eq in E. subst id. lia.
+    - intros id H. change (next_id s') with (next_id s) in H. rewrite ET, (LF id H).
+      assert (E : N.eqb id0 id = false) by (apply N.eqb_neq; lia). rewrite E. reflexivity.
+    - intros id H. change (get_slot s' id) with (get_slot s id). rewrite ET in H.
+      destruct (N.eqb id0 id) eqn:E; cbn [b2n] in H.
+      + apply N.eqb_eq in E. subst id. exact Nd.
+      + apply LN. lia.
+    - intros id H. change (CI s' id) with (CI s id) in H. change (cancels s') with (cancels s).
+      destruct (LC id H) as [X|X]; [left; exact X|right].
+      pose proof (EP gA id) as HP. cbn [gA andb b2n] in HP. unfold CA in *. lia.
+    - intros id H. change (CQ s' id) with (CQ s id) in H. change (get_slot s' id) with (get_slot s id).
+      destruct (LQ id H) as [X|X]; [left; exact X|right].
+      pose proof (EP gW id) as HP. cbn [gW andb b2n] in HP. unfold CW in *. lia.
+  Qed.
+
+  Lemma Live_enqueue s i k c0 tc :
+    Live s -> nth_error (calls s) i = Some k -> gA (c_phase k) = false ->
+    c_phase k <> PAcquiring -> gS (c_phase k) = true \/ TT s (c_id k) = 0%nat ->
+    slot_done (get_slot s (c_id k)) = false -> (c_id k < next_id s)%N ->
+    fst (enqueue s i c0 (c_id k) tc) = CPending /\ Live (snd (enqueue s i c0 (c_id k) tc)).
+  Proof.
+    intros L Hk Ga Hp Hs Nd Fr. unfold enqueue.
+    set (q := {| q_id := c_id k; q_deadline := c_deadline c0; q_tc := tc; q_body := c_body c0 |}).
+    rewrite set_phase_alt. set (s' := upd_calls _ _). set (id0 := c_id k) in *.
+    assert (Eg : get_slot s' id0 = get_slot s id0) by reflexivity.
+    unfold poll_slot. rewrite Eg. pose proof Nd as Nd0. unfold slot_done in Nd.
+    destruct (sl_val (get_slot s id0)) eqn:V; [discriminate|]. rewrite Nd. cbn [fst snd].
+    split; [reflexivity|].
+    destruct L as [LD LW LU LF LN LC LQ].
+    assert (EP : forall g id, (cP g (calls s') id + b2n (g (c_phase k) && N.eqb id0 id)
+                               = cP g (calls s) id + b2n (g PAwaiting && N.eqb id0 id))%nat).
+    { intros g id. unfold s'. cbn [calls upd_calls upd_q]. apply cP_phase_calls, Hk. }
+    assert (EQ : forall id, CQ s' id = (CQ s id + b2n (N.eqb id0 id))%nat).
+    { intro id. unfold CQ, s'. cbn [queue upd_calls upd_q]. unfold cQ. rewrite cnt_app, cnt_cons, cnt_nil.
+      cbn [q_id q]. lia. }
+    assert (U0 : (TT s id0 <= 1)%nat) by apply LU.
+    assert (P0 : gS (c_phase k) = true -> (1 <= CS s id0)%nat) by (intro; eapply TT_pos_staged; eassumption).
+    assert (ET : forall id, (TT s' id + b2n (gS (c_phase k) && N.eqb id0 id)
+                             = TT s id + b2n (N.eqb id0 id))%nat).
+    { intro id. unfold TT. rewrite EQ. change (CI s' id) with (CI s id).
+      pose proof (EP gS id) as H. cbn [gS andb b2n] in H. unfold CS. lia. }
+    constructor.
+    - exact LD.
+    - eapply winv_phase_not_waiter; [exact LW|exact Hk|exact Hp|reflexivity|reflexivity].
+    - intro id. specialize (ET id). specialize (LU id). destruct (N.eqb id0 id) eqn:E.
+      + apply N.eqb_eq in E. subst id. rewrite andb_true_r in ET.
+        destruct (gS (c_phase k)) eqn:G; cbn [b2n] in ET.
+        * lia.
+        * destruct Hs as [X|X]; [discriminate|]. lia.
+      + rewrite andb_false_r in ET. cbn [b2n] in ET. lia.
+    - intros id H. change (next_id s') with (next_id s) in H. specialize (ET id).
+      assert (E : N.eqb id0 id = false) by (apply N.eqb_neq; lia).
+      rewrite E, andb_false_r in ET. cbn [b2n] in ET. rewrite (LF id H) in ET. lia.
+    - intros id H. change (get_slot s' id) with (get_slot s id). specialize (ET id).
+      destruct (N.eqb id0 id) eqn:E.
+      + apply N.eqb_eq in E. subst id. exact Nd0.
+      + rewrite andb_false_r in ET. cbn [b2n] in ET. apply LN. lia.
+    - intros id H. change (CI s' id) with (CI s id) in H. change (cancels s') with (cancels s).
+      destruct (LC id H) as [X|X]; [left; exact X|right].
+      pose proof (EP gA id) as HP. rewrite Ga in HP. cbn [gA andb b2n] in HP. unfold CA in *. lia.
+    - intros id H. change (get_slot s' id) with (get_slot s id). rewrite EQ in H.
+      pose proof (EP gW id) as HP. cbn [gW andb b2n] in HP. unfold CW in *.
+      assert (Gw : gW (c_phase k) = false) by (destruct (c_phase k); try reflexivity; discriminate).
+      rewrite Gw in HP. cbn [andb b2n] in HP.
+      destruct (N.eqb id0 id) eqn:E; cbn [b2n] in *.
+      + right. lia.
+      + destruct (LQ id ltac:(lia)) as [X|X]; [left; exact X|right; lia].
+  Qed.
+
+  Lemma Live_call s knew :
+    Live s -> c_phase knew = PNew \/ c_phase knew = PGone -> Live (upd_calls s (calls s ++ [knew])).
+  Proof.
+    intros [LD LW LU LF LN LC LQ] Hp. set (s' := upd_calls _ _).
+    assert (EP : forall g id, g PNew = false -> g PGone = false ->
+                              cP g (calls s') id = cP g (calls s) id).
+    { intros g id G1 G2. unfold s', cP. cbn [calls upd_calls]. rewrite cnt_app, cnt_cons, cnt_nil.
+      destruct Hp as [-> | ->]; rewrite ?G1, ?G2; cbn; lia. }
+    assert (ET : forall id, TT s' id = TT s id).
+    { intro id. unfold TT, CS. rewrite (EP gS id eq_refl eq_refl). reflexivity. }
+    constructor.
+    - exact LD.
+    - destruct LW as [A N]. constructor; [|exact N]. intros w Hw.
+      destruct (A w Hw) as (c & Hc & Hpc). exists c. split; [|exact Hpc].
+      unfold s'. cbn [calls upd_calls]. rewrite nth_error_app1; [exact Hc|].
+      apply nth_error_Some. congruence.
+    - intro id. rewrite ET. apply LU.
+    - intros id H. rewrite ET. apply LF, H.
+    - intros id H. rewrite ET in H. apply LN, H.
+    - intros id H. unfold CA. rewrite (EP gA id eq_refl eq_refl). apply LC, H.
+    - intros id H. unfold CW. rewrite (EP gW id eq_refl eq_refl). apply LQ, H.
+  Qed.
+
+  Lemma staged_fresh s i k :
+    Live s -> nth_error (calls s) i = Some k -> gS (c_phase k) = true ->
+    slot_done (get_slot s (c_id k)) = false /\ (c_id k < next_id s)%N.
+  Proof.
+    intros L Hk G. pose proof (TT_pos_staged s i k Hk G) as P. split.
+    - apply L. unfold TT. lia.
+    - destruct (N.lt_ge_cases (c_id k) (next_id s)) as [H|H]; [exact H|].
+      pose proof (l_fresh _ L _ H) as Z. unfold TT in Z. lia.
+  Qed.
+
+  Lemma Live_poll_call s i :
+    Live s -> (next_id s + 1 < two64)%N -> Live (snd (poll_call s i)).
+  Proof.
+    intros L Hw. unfold poll_call. destruct (nth_error (calls s) i) as [k|] eqn:Hk; [|exact L].
+    destruct (c_phase k) eqn:Hp; try exact L.
+    - (* PNew *)
+      destruct (Live_prologue s i k L Hk Hp Hw) as (L1 & Z1 & G1 & N1 & K1).
+      cbn zeta. set (s1 := set_slot _ (next_id s) slot0) in *.
+      destruct (rx_closed s1).
+      + apply (Live_fail_shutdown s1 i (with_cid k (next_id s)) L1 K1).
+        * right. exact Z1.
+        * cbn [c_phase with_cid]. rewrite Hp. reflexivity.
+        * cbn [c_phase with_cid]. congruence.
+      + destruct (permits s1) as [|pm].
+        * cbn [snd]. apply (Live_acquire s1 i (with_cid k (next_id s)) false L1 K1).
+          -- exact Hp.
+          -- exact Z1.
+          -- cbn [c_id with_cid]. rewrite G1. reflexivity.
+          -- cbn [c_id with_cid]. rewrite N1. lia.
+        * apply (Live_enqueue (upd_q s1 pm (queue s1) (waiters s1) false) i
+                   (with_cid k (next_id s))).
+          -- eapply Live_eq; [..|exact L1]; reflexivity.
+          -- exact K1.
+          -- cbn [c_phase with_cid]. rewrite Hp. reflexivity.
+          -- cbn [c_phase with_cid]. congruence.
+          -- right. exact Z1.
+          -- cbn [c_id with_cid]. change (get_slot (upd_q s1 ?a ?b ?c ?d) ?id) with (get_slot s1 id).
+             rewrite G1. reflexivity.
+          -- cbn [c_id with_cid]. change (next_id (upd_q s1 ?a ?b ?c ?d)) with (next_id s1).
+             rewrite N1. lia.
+    - (* PAssigned *)
+      assert (G : gS (c_phase k) = true) by (rewrite Hp; reflexivity).
+      destruct (staged_fresh s i k L Hk G) as [Nd Fr].
+      destruct (rx_closed s).
+      + apply (Live_fail_shutdown (upd_q s (S (permits s)) (queue s) (waiters s) (rx_closed s)) i k).
+        * eapply Live_eq; [..|exact L]; reflexivity.
+        * exact Hk.
+        * left. exact G.
+        * rewrite Hp. reflexivity.
+        * congruence.
+      + apply (Live_enqueue s i k); try assumption.
+        * rewrite Hp. reflexivity.
+        * congruence.
+        * left. exact G.
+    - (* PAcqClosed *)
+      apply (Live_fail_shutdown s i k); try assumption.
+      + left. rewrite Hp. reflexivity.
+      + rewrite Hp. reflexivity.
+      + congruence.
+    - (* PAwaiting *)
+      apply Live_poll_slot; assumption.
+  Qed.
+
+  Variable fuel_of : cstate -> nat.
+
+  Lemma Live_step_user s o s' os :
+    Live s -> (next_id s + 1 < two64)%N -> step tp fuel_of s o = (s', os) ->
+    o <> PollDispatch -> o <> DropDispatch -> Live s'.
+  Proof.
+    intros L Hw H N1 N2. destruct o; cbn [step] in H; try congruence.
+    - injection H as <- _. destruct (nth_error _ _) as [[|]|]; try exact L.
+      eapply Live_eq; [..|exact L]; reflexivity.
+    - injection H as <- _. destruct (nth_error _ _) as [[|]|]; try exact L.
+      eapply Live_eq; [..|exact L]; reflexivity.
+    - injection H as <- _. apply Live_call; [exact L|].
+      cbn [c_phase]. destruct (nth_error _ _) as [[|]|]; auto.
+    - pose proof (Live_poll_call s i L Hw) as L'. destruct (poll_call s i) as [r s1].
+      injection H as <- _. exact L'.
+    - injection H as <- _. destruct (option_map _ _) as [[]|];
+        try apply Live_guard_cancel, Live_guard_close, L. exact L.
+    - injection H as <- _. destruct (option_map _ _) as [[]|]; try apply Live_guard_close, L. exact L.
+    - injection H as <- _. apply Live_guard_cancel, L.
+    - injection H as <- _. eapply Live_eq; [..|exact L]; reflexivity.
+    - injection H as <- _. eapply Live_eq; [..|exact L]; reflexivity.
+  Qed.
 End User.
